@@ -48,7 +48,10 @@ Durable == <<wchain, pend, status, cursor>>
 TraceInit ==
     /\ GenInit
     /\ l = 1 /\ hst = "top" /\ wst = "top"
-    /\ pre = [h |-> <<>>, w |-> <<>>, t |-> "", acc |-> FALSE]
+    /\ pre = [h |-> <<>>, w |-> <<>>, t |-> "", acc |-> FALSE,
+              c |-> wchain,     \* the synced chain as of the last commit (what a read transaction opened now sees)
+              qo |-> FALSE,     \* a query of the query thread is in flight
+              q |-> {}]         \* the committed chains it may have read: the one at its start and every one committed since
 
 (* ---------------------------------------------------- the recorded projection *)
 \* the recorded projection equals the (primed = current, after the step) state
@@ -67,6 +70,9 @@ DigestIn(e, wc, st, cu, pe) ==
     /\ TracePend => Range(e.pend) = pe
 DigestOK(e) == DigestIn(e, wchain, status, cursor, pend)
 
+\* a commit makes a new boundary state visible to read transactions
+NoteCommit(wc) == pre' = [pre EXCEPT !.c = wc, !.q = IF pre.qo THEN pre.q \cup {wc} ELSE pre.q]
+
 (* ------------------------------------------------ chain actions (harness thread) *)
 KeepT == UNCHANGED <<hst, wst, pre>>
 EvExtend   == Consume /\ Ev.ev = "Extend" /\ NBlk + 1 = Ev.b /\ Tip = Ev.p
@@ -81,11 +87,12 @@ EvSwitchTo == Consume /\ Ev.ev = "SwitchTo" /\ SwitchTo(Ev.b) /\ UNCHANGED follo
 EvAnnounce == Consume /\ Ev.ev = "Announce" /\ Announce(Ev.t) /\ UNCHANGED followerVars /\ KeepT
 
 (* --------------------------------------------------------------- the follower *)
-EvHBlock == Consume /\ Ev.ev = "h.block" /\ hst = "top" /\ ntfB # <<>>
+\* ... and the follower takes nothing off its queues while the worker is inside the window (update done, resume not yet sent)
+EvHBlock == Consume /\ Ev.ev = "h.block" /\ hst = "top" /\ ntfB # <<>> /\ wst \notin {"s1", "s2"}
             /\ hst' = "blk0" /\ UNCHANGED <<vars, wst, pre>>
 StepBlock == hst = "blk0" /\ HandleBlock /\ hst' = "blk1"
              /\ pre' = [pre EXCEPT !.h = Durable] /\ UNCHANGED <<l, wst>>
-EvHTx    == Consume /\ Ev.ev = "h.tx" /\ hst = "top" /\ ntfT # <<>>
+EvHTx    == Consume /\ Ev.ev = "h.tx" /\ hst = "top" /\ ntfT # <<>> /\ wst \notin {"s1", "s2"}
             /\ hst' = "tx0" /\ UNCHANGED <<vars, wst, pre>>
 \* proccessReceivedTx decides in read transactions (ready wallets, inputs, known ids) and writes in a later
 \* update: the decision is a silent step between h.tx and the commit, the pending record appears with the commit
@@ -98,12 +105,14 @@ EvCommitH == /\ Consume /\ Ev.ev = "commit" /\ Ev.role = "H"
              /\ \/ /\ hst = "blk1" /\ hst' = "blk2"
                    /\ DigestOK(Ev)
                    /\ UNCHANGED vars
+                   /\ NoteCommit(wchain)
                 \/ /\ hst = "tx1" /\ hst' = "tx2"
                    /\ pre.acc                      \* an unconfirmed-transaction step commits only what it accepted
                    /\ pend' = pend \cup {pre.t} /\ memp' = memp \cup {pre.t}
                    /\ DigestIn(Ev, wchain, status, cursor, pend')
                    /\ UNCHANGED <<chainVars, wchain, wmem, wexp, up, status, cursor, tasks, faulted>>
-             /\ UNCHANGED <<wst, pre>>
+                   /\ NoteCommit(wchain)
+             /\ UNCHANGED wst
 \* the update was abandoned (the tip was revoked meanwhile, ...): nothing durable may have changed
 EvRollbackH == /\ Consume /\ Ev.ev = "rollback" /\ Ev.role = "H"
                /\ \/ hst = "blk1" /\ Durable = pre.h /\ hst' = "blk2"
@@ -131,13 +140,15 @@ EvWSuspend == /\ Consume /\ Ev.ev = "w.suspend" /\ wst \in {"top", "round"}
 \* a round of the second phase that does not finish the removal (more than 20 000 records): no model-level change
 RoundMore == tasks # <<>> /\ Head(tasks)[1] = "remove2" /\ UNCHANGED vars
 StepWorker == /\ wst = "s0"
-              /\ hst \in {"top", "susp", "blk2", "tx2", "res"}      \* never in the middle of a follower step
+              \* the rendezvous on sigSuspend happens at the follower's select: after h.top, before it takes anything
+              /\ hst \in {"top", "susp"}
               /\ ImportStep \/ RemoveStepA \/ RemoveStepB \/ RoundMore
               /\ wst' = "s1" /\ pre' = [pre EXCEPT !.w = Durable] /\ UNCHANGED <<l, hst>>
-EvCommitW == /\ Consume /\ Ev.ev = "commit" /\ Ev.role = "W" /\ wst = "s1"
+EvCommitW == /\ Consume /\ Ev.ev = "commit" /\ Ev.role = "W" /\ wst = "s1" /\ hst \in {"top", "susp"}
              /\ DigestOK(Ev)
-             /\ wst' = "s2" /\ UNCHANGED <<vars, hst, pre>>
-EvRollbackW == /\ Consume /\ Ev.ev = "rollback" /\ Ev.role = "W" /\ wst = "s1" /\ Durable = pre.w
+             /\ NoteCommit(wchain)
+             /\ wst' = "s2" /\ UNCHANGED <<vars, hst>>
+EvRollbackW == /\ Consume /\ Ev.ev = "rollback" /\ Ev.role = "W" /\ wst = "s1" /\ hst \in {"top", "susp"} /\ Durable = pre.w
                /\ wst' = "s2" /\ UNCHANGED <<vars, hst, pre>>
 EvWResume  == Consume /\ Ev.ev = "w.resume"  /\ wst = "s2" /\ wst' = "r"  /\ UNCHANGED <<vars, hst, pre>>
 EvWResumed == Consume /\ Ev.ev = "w.resumed" /\ wst = "r"  /\ wst' = "rd" /\ UNCHANGED <<vars, hst, pre>>
@@ -162,9 +173,29 @@ EvApi == /\ Consume /\ Ev.ev = "commit" /\ Ev.role = "A"
             \/ Ev.op = "Remove" /\ Ev.nth = 1 /\ RemoveT(Ev.w)
             \/ Ev.nth > 1 /\ UNCHANGED vars           \* further commits of the same call change nothing the model sees
          /\ DigestIn(Ev, wchain', status', cursor', pend')
-         /\ UNCHANGED <<hst, wst, pre>>
+         /\ NoteCommit(wchain')
+         /\ UNCHANGED <<hst, wst>>
 
-TraceNext == \/ EvExtend \/ EvFork \/ EvForkSlow \/ EvReorgStep \/ EvSwitchTo \/ EvAnnounce
+(* ------------------------------------------------------------------- queries *)
+\* A query thread calls WalletBalance / GetUtxo for one ready wallet while everything else runs (C17).  Its answer
+\* must be that of ONE committed boundary state between its start and its end: the chain committed last when it
+\* started, or one committed while it ran.
+QBal(wc, w)  == [total |-> Balance(CC(wc), w), spendable |-> Sum(SpendableSet(CC(wc), w), Amt),
+                 wstaking |-> Sum(WdStakingSet(CC(wc), w), Amt), wbinding |-> Sum(WdBindingSet(CC(wc), w), Amt)]
+QUtxo(wc, w) == {<<op[1], op[2] - 1>> : op \in Utxo(CC(wc), w)}
+EvQBegin == /\ Consume /\ Ev.ev = "q.begin" /\ ~pre.qo
+            /\ pre' = [pre EXCEPT !.qo = TRUE, !.q = {pre.c}]
+            /\ UNCHANGED <<vars, hst, wst>>
+EvQEnd == /\ Consume /\ Ev.ev = "q.end" /\ pre.qo
+          /\ \E wc \in pre.q :
+                IF Ev.api = "balance"
+                THEN QBal(wc, Ev.w) = [total |-> Ev.total, spendable |-> Ev.spendable, wstaking |-> Ev.wstaking, wbinding |-> Ev.wbinding]
+                ELSE QUtxo(wc, Ev.w) = {<<u[1], u[2]>> : u \in Range(Ev.utxos)}
+          /\ pre' = [pre EXCEPT !.qo = FALSE, !.q = {}]
+          /\ UNCHANGED <<vars, hst, wst>>
+
+TraceNext == \/ EvQBegin \/ EvQEnd
+             \/ EvExtend \/ EvFork \/ EvForkSlow \/ EvReorgStep \/ EvSwitchTo \/ EvAnnounce
              \/ EvHBlock \/ StepBlock \/ EvHTx \/ StepTx \/ EvCommitH \/ EvRollbackH
              \/ EvHSuspended \/ EvHResumed \/ EvHTop
              \/ EvWSuspend \/ StepWorker \/ EvCommitW \/ EvRollbackW \/ EvWResume \/ EvWResumed \/ EvWRound \/ EvWTop
